@@ -316,10 +316,13 @@ def expr_cases(rng, tier):
     for pos, tmpl in positions:
         for kinds in [("num", "num"), ("equ", "num"), ("num", "equ"), ("equ", "equ"), ("lb", "num"), ("la", "num"), ("num", "lb"), ("lb", "lb"), ("lb", "equ"), ("single-equ",), ("single-lb",), ("single-la",)]:
             for _ in range(n_each if len(kinds) == 2 else 4):
-                pre = [" ORG $%04X\n" % rng.choice([0x1000, 0x0E00, 0x0020, 0x8000])]
+                org = rng.choice([0x1000, 0x0E00, 0x0020, 0x8000])
+                pre = [" ORG $%04X\n" % org]
                 post = []
                 terms = []
                 texts = []
+                here = org
+                label_addr = {}
                 for side, kd in enumerate(kinds):
                     kd = kd.replace("single-", "")
                     if kd == "num":
@@ -335,7 +338,10 @@ def expr_cases(rng, tier):
                     elif kd == "lb":
                         nm = "B%d" % side
                         pre.append("%s NOP\n" % nm)
-                        pre += filler(rng.choice([0, 3, 300]))
+                        label_addr[nm] = here
+                        fl = rng.choice([0, 3, 300])
+                        pre += filler(fl)
+                        here += 1 + fl
                         terms.append(("label", nm))
                         texts.append(nm)
                     else:
@@ -348,7 +354,7 @@ def expr_cases(rng, tier):
                 etxt = texts[0] if op is None else texts[0] + op + texts[1]
                 body = tmpl % etxt
                 line = (body if pos == "equ" else " " + body) + "\n"
-                desc = {"kind": "expr", "pos": pos, "terms": terms, "op": op, "stmt": len(pre), "etxt": etxt,
+                desc = {"kind": "expr", "pos": pos, "terms": terms, "op": op, "stmt": len(pre), "etxt": etxt, "label_addr": label_addr,
                         "has_label": any(t[0] == "label" for t in terms), "kinds": kinds}
                 if op == "/" and terms[1][0] != "label" and terms[1][-1] == 0:
                     desc["divzero"] = True
